@@ -317,6 +317,215 @@ theorem normalise_in_range (a : Nat) (s : Int) (fuel : Nat) (e x : Int)
     normalise a s (fuel + 1) e x = (e, x) := by
   simp [normalise, h1, h2]
 
+/-! ### the grammar of `$number` -/
+
+def DigitsL (l : List Char) : Prop := l ≠ [] ∧ ∀ c ∈ l, isDig c = true
+/-- the list does not start with a digit -/
+def NoDigitHead (r : List Char) : Prop := ∀ c, r.head? = some c → isDig c = false
+
+theorem dropWhile_stop (r : List Char) (h : NoDigitHead r) : r.dropWhile isDig = r := by
+  cases r with
+  | nil => rfl
+  | cons c cs => simp [List.dropWhile, h c rfl]
+
+theorem dropWhile_digits_append (ds r : List Char) (hd : ∀ c ∈ ds, isDig c = true) (hr : NoDigitHead r) :
+    (ds ++ r).dropWhile isDig = r := by
+  induction ds with
+  | nil => exact dropWhile_stop r hr
+  | cons d ds ih =>
+    have hdd : isDig d = true := hd d (by simp)
+    simp only [List.cons_append, List.dropWhile, hdd]
+    exact ih (fun c hc => hd c (List.mem_cons_of_mem _ hc))
+
+theorem noDigitHead_dropWhile (l : List Char) : NoDigitHead (l.dropWhile isDig) := by
+  induction l with
+  | nil => intro c h; simp at h
+  | cons d ds ih =>
+    by_cases hd : isDig d = true
+    · simpa [List.dropWhile, hd] using ih
+    · intro c h
+      simp [List.dropWhile, hd] at h
+      subst h; simpa using hd
+
+theorem all_takeWhile (l : List Char) : ∀ x ∈ l.takeWhile isDig, isDig x = true := by
+  induction l with
+  | nil => intro x hx; simp at hx
+  | cons d ds ih =>
+    intro x hx
+    by_cases hd : isDig d = true
+    · simp [List.takeWhile, hd] at hx
+      rcases hx with rfl | hx
+      · exact hd
+      · exact ih x hx
+    · simp [List.takeWhile, hd] at hx
+
+/-- `digits1` strips a maximal non-empty run of digits -/
+theorem digits1_iff (s r : List Char) :
+    digits1 s = some r ↔ ∃ ds, DigitsL ds ∧ s = ds ++ r ∧ NoDigitHead r := by
+  constructor
+  · intro h
+    cases s with
+    | nil => simp [digits1] at h
+    | cons c cs =>
+      simp only [digits1] at h
+      split at h
+      · rename_i hc
+        simp only [Option.some.injEq] at h
+        subst h
+        refine ⟨c :: cs.takeWhile isDig, ⟨by simp, ?_⟩, ?_, noDigitHead_dropWhile cs⟩
+        · intro x hx
+          rcases List.mem_cons.mp hx with rfl | hx
+          · exact hc
+          · exact all_takeWhile cs x hx
+        · simp [List.takeWhile_append_dropWhile]
+      · cases h
+  · rintro ⟨ds, ⟨hne, hall⟩, rfl, hr⟩
+    cases ds with
+    | nil => exact absurd rfl hne
+    | cons d ds' =>
+      have hd : isDig d = true := hall d (by simp)
+      simp only [List.cons_append, digits1, hd, if_true, Option.some.injEq]
+      exact dropWhile_digits_append ds' r (fun c hc => hall c (List.mem_cons_of_mem _ hc)) hr
+
+
+/-- the grammar of the statement: optional minus, digits, optional fraction, optional exponent -/
+def NumText (s : List Char) : Prop :=
+  ∃ sign ip frac expo, s = sign ++ ip ++ frac ++ expo ∧ (sign = [] ∨ sign = ['-']) ∧ DigitsL ip ∧
+    (frac = [] ∨ ∃ fp, DigitsL fp ∧ frac = '.' :: fp) ∧
+    (expo = [] ∨ ∃ m sg ed, (m = 'e' ∨ m = 'E') ∧ (sg = [] ∨ sg = ['+'] ∨ sg = ['-']) ∧ DigitsL ed ∧ expo = m :: (sg ++ ed))
+
+theorem digit_head (ds rest : List Char) (h : DigitsL ds) : ∃ d tl, ds ++ rest = d :: tl ∧ isDig d = true := by
+  obtain ⟨hne, hall⟩ := h
+  cases ds with
+  | nil => exact absurd rfl hne
+  | cons d tl => exact ⟨d, tl ++ rest, rfl, hall d (by simp)⟩
+
+theorem expo_noDigitHead (expo : List Char)
+    (h : expo = [] ∨ ∃ m sg ed, (m = 'e' ∨ m = 'E') ∧ (sg = [] ∨ sg = ['+'] ∨ sg = ['-']) ∧ DigitsL ed ∧ expo = m :: (sg ++ ed)) :
+    NoDigitHead expo := by
+  intro c hc
+  rcases h with rfl | ⟨m, sg, ed, hm, _, _, rfl⟩
+  · simp at hc
+  · simp at hc; subst hc
+    rcases hm with rfl | rfl <;> decide
+
+theorem expOk_of (expo : List Char)
+    (h : expo = [] ∨ ∃ m sg ed, (m = 'e' ∨ m = 'E') ∧ (sg = [] ∨ sg = ['+'] ∨ sg = ['-']) ∧ DigitsL ed ∧ expo = m :: (sg ++ ed)) :
+    expOk expo = true := by
+  rcases h with rfl | ⟨m, sg, ed, hm, hsg, hed, rfl⟩
+  · rfl
+  · have hme : (m == 'e' || m == 'E') = true := by rcases hm with rfl | rfl <;> decide
+    have hstrip : stripSign (sg ++ ed) = ed := by
+      obtain ⟨d, tl, hdt, hd⟩ := digit_head ed [] hed
+      simp at hdt
+      rcases hsg with rfl | rfl | rfl
+      · subst hdt
+        simp only [List.nil_append, stripSign]
+        split
+        · rename_i heq; simp at heq; rw [heq.1] at hd; exact absurd hd (by decide)
+        · rename_i heq; simp at heq; rw [heq.1] at hd; exact absurd hd (by decide)
+        · rfl
+      · rfl
+      · rfl
+    have hd1 : digits1 ed = some [] := (digits1_iff ed []).mpr ⟨ed, hed, by simp, by intro c h; simp at h⟩
+    simp [expOk, hme, hstrip, hd1]
+
+/-- every text of the grammar is accepted -/
+theorem reNumber_complete (s : List Char) (h : NumText s) : reNumber s = true := by
+  obtain ⟨sign, ip, frac, expo, rfl, hsign, hip, hfrac, hexpo⟩ := h
+  have hexN := expo_noDigitHead expo hexpo
+  -- after the optional sign
+  have hstrip : stripMinus (sign ++ ip ++ frac ++ expo) = ip ++ (frac ++ expo) := by
+    rcases hsign with rfl | rfl
+    · obtain ⟨d, tl, hdt, hd⟩ := digit_head ip (frac ++ expo) hip
+      simp only [List.nil_append, List.append_assoc, hdt, stripMinus]
+      split
+      · rename_i heq
+        simp only [List.cons.injEq] at heq
+        rw [heq.1] at hd
+        exact absurd hd (by decide)
+      · rfl
+    · simp [stripMinus]
+  have hfracN : NoDigitHead (frac ++ expo) := by
+    rcases hfrac with rfl | ⟨fp, _, rfl⟩
+    · simpa using hexN
+    · intro c hc; simp at hc; subst hc; decide
+  have h1 : digits1 (ip ++ (frac ++ expo)) = some (frac ++ expo) :=
+    (digits1_iff _ _).mpr ⟨ip, hip, rfl, hfracN⟩
+  have h2 : fracStep (frac ++ expo) = some expo := by
+    rcases hfrac with rfl | ⟨fp, hfp, rfl⟩
+    · rcases hexpo with rfl | ⟨m, sg, ed, hm, _, _, rfl⟩
+      · rfl
+      · rcases hm with rfl | rfl <;> rfl
+    · simp only [List.cons_append, fracStep]
+      exact (digits1_iff _ _).mpr ⟨fp, hfp, rfl, hexN⟩
+  unfold reNumber
+  rw [hstrip]
+  simp only [h1, h2]
+  exact expOk_of expo hexpo
+
+/-- every accepted text is a text of the grammar -/
+theorem reNumber_sound (s : List Char) (h : reNumber s = true) : NumText s := by
+  unfold reNumber at h
+  cases h1 : digits1 (stripMinus s) with
+  | none => simp [h1] at h
+  | some s2 =>
+    simp only [h1] at h
+    cases h2 : fracStep s2 with
+    | none => simp [h2] at h
+    | some s3 =>
+      simp only [h2] at h
+      obtain ⟨ip, hip, hs1, _⟩ := (digits1_iff _ _).mp h1
+      -- the sign
+      have hsign : ∃ sign, (sign = [] ∨ sign = ['-']) ∧ s = sign ++ stripMinus s := by
+        unfold stripMinus
+        split
+        · exact ⟨['-'], Or.inr rfl, rfl⟩
+        · exact ⟨[], Or.inl rfl, rfl⟩
+      obtain ⟨sign, hsg, hs⟩ := hsign
+      -- the fraction
+      have hfrac : ∃ frac, (frac = [] ∨ ∃ fp, DigitsL fp ∧ frac = '.' :: fp) ∧ s2 = frac ++ s3 := by
+        unfold fracStep at h2
+        split at h2
+        · rename_i r
+          obtain ⟨fp, hfp, hr, _⟩ := (digits1_iff _ _).mp h2
+          exact ⟨'.' :: fp, Or.inr ⟨fp, hfp, rfl⟩, by simp [hr]⟩
+        · simp at h2; subst h2; exact ⟨[], Or.inl rfl, rfl⟩
+      obtain ⟨frac, hfr, hs2⟩ := hfrac
+      -- the exponent
+      have hexpo : s3 = [] ∨ ∃ m sg ed, (m = 'e' ∨ m = 'E') ∧ (sg = [] ∨ sg = ['+'] ∨ sg = ['-']) ∧ DigitsL ed ∧ s3 = m :: (sg ++ ed) := by
+        unfold expOk at h
+        split at h
+        · exact Or.inl rfl
+        · rename_i c r
+          right
+          by_cases hc : (c == 'e' || c == 'E') = true
+          · simp only [hc, if_true] at h
+            cases h3 : digits1 (stripSign r) with
+            | none => simp [h3] at h
+            | some rest =>
+              cases rest with
+              | cons x xs => simp [h3] at h
+              | nil =>
+                obtain ⟨ed, hed, hr, _⟩ := (digits1_iff _ _).mp h3
+                have hm : c = 'e' ∨ c = 'E' := by simpa using hc
+                have hsgn : ∃ sg, (sg = [] ∨ sg = ['+'] ∨ sg = ['-']) ∧ r = sg ++ stripSign r := by
+                  unfold stripSign
+                  split
+                  · exact ⟨['+'], Or.inr (Or.inl rfl), rfl⟩
+                  · exact ⟨['-'], Or.inr (Or.inr rfl), rfl⟩
+                  · exact ⟨[], Or.inl rfl, rfl⟩
+                obtain ⟨sg, hsg', hr'⟩ := hsgn
+                refine ⟨c, sg, ed, hm, hsg', hed, ?_⟩
+                rw [hr', hr]; simp
+          · simp [hc] at h
+      refine ⟨sign, ip, frac, s3, ?_, hsg, hip, hfr, hexpo⟩
+      rw [hs, hs1, hs2]; simp [List.append_assoc]
+
+/-- **$number accepts exactly the grammar of the statement** -/
+theorem reNumber_iff (s : List Char) : reNumber s = true ↔ NumText s :=
+  ⟨reNumber_sound s, reNumber_complete s⟩
+
 /-! ### termination of the exponent normalisation (the loops that did not terminate for 0 and negative numbers) -/
 
 theorem lt_iff (a : Nat) (ha : 1 ≤ a) (e k : Int) :
